@@ -114,6 +114,19 @@ partial def ofLean : Lean.Json → Json
   | .arr a => .arr (a.toList.map ofLean)
   | .obj kvs => .obj (kvs.foldl (fun acc k v => acc ++ [(toStr k, ofLean v)]) [])
 
+/-- the abstract tree as a `Lean.Json` value (keys end up in `Lean.Json`'s own order) — used by the `emit`
+    request that produced `corpus/C06/lean_written.ops`: documents written by Lean, loaded by the real code -/
+partial def toLean : Json → Lean.Json
+  | .null => .null
+  | .bool b => .bool b
+  | .num n => .num ⟨n, 0⟩
+  | .flt b => match Lean.JsonNumber.fromFloat? (Float.ofBits b.toUInt64) with
+    | .inr n => .num n
+    | .inl _ => .null
+  | .str s => .str (ofStr s)
+  | .arr xs => .arr (xs.map toLean).toArray
+  | .obj kvs => Lean.Json.mkObj (kvs.map fun kv => (ofStr kv.1, toLean kv.2))
+
 def strLt : Str → Str → Bool
   | [], [] => false
   | [], _ => true
@@ -250,6 +263,9 @@ def stepC06 (s : Unit) (ws : List String) : Unit × Resp :=
       | .ok j => fromJsonTree j
       | .error _ => .error .serde
     (s, { model := showSk r .tree })
+  | ["emit", spec] =>
+    let t := (toLean (toJson (listOf spec))).compress
+    (s, { model := String.ofList (t.toUTF8.toList.flatMap fun x => [hexDigit (x.toNat / 16), hexDigit (x.toNat % 16)]) })
   | _ => (s, { model := "bad-op" })
 
 def main : IO Unit := Driver.run () stepC06
